@@ -11,7 +11,7 @@ TXT = {'LPAREN': '(', 'RPAREN': ')', 'LCURLY': '{', 'RCURLY': '}', 'HASH': '#', 
        'UNION': '\\/', 'RANGE': '..', 'DOT': '.', 'AND': '&', 'OR': '|', 'NOTEXISTS': '!E', 'EXISTS': 'E', 'AT': '@',
        'REQUIRES': '<-', 'INHERITS': '+>', 'LEADSTO': '->', 'COMMA': ',', 'PLUS': '+', 'DIVIDE': '/', 'POWER': '^',
        'C': 'C', 'I': 'I', 'A': 'A', 'ABSTRACT': 'abstract', 'ASSET': 'asset', 'ASSOCIATIONS': 'associations',
-       'EXTENDS': 'extends', 'INCLUDE': 'include', 'CATEGORY': 'category', 'INFO': 'info', 'LET': 'let'}
+       'JUNK': ';', 'JUNK2': '$', 'EXTENDS': 'extends', 'INCLUDE': 'include', 'CATEGORY': 'category', 'INFO': 'info', 'LET': 'let'}
 
 
 def render(toks):
